@@ -14,6 +14,7 @@ fn dispatch(engine: &str, case: &Value) -> Value {
         "merge" => e_merge::run(case),
         "lcov" => e_lcov::run(case),
         "markers" => e_markers::run(case),
+        "parse" => e_lcov::run_parse(case),
         "lcov_rt" => e_lcov::run_rt(case),
         _ => json!({"error": format!("unknown engine {}", engine)}),
     }
